@@ -1,3 +1,4 @@
+import Mercure.Lemmas.BoltStore
 import Mercure.Lemmas.Retention
 import Mercure.Model.Retention64
 import Mercure.Generated.Facts
@@ -111,6 +112,40 @@ example : ((rRun 2 [(false, ⟨['a'], [], false, [], [], 0⟩), (false, ⟨['b']
                     (false, ⟨['c'], [], false, [], [], 0⟩), (true, ⟨['d'], [], false, [], [], 0⟩)]).db.map (·.1)) = [3, 4] := by
   decide +kernel
 
+/-- **Also when the configuration changes at a restart** (another `size`, another cleanup frequency,
+    on the same database file): whatever size is in force at each publication and whatever the coins,
+    the retained history is a contiguous suffix of the accepted updates stored under consecutive
+    sequence numbers ending at the last one — no update is discarded while an older one is kept. -/
+theorem retained_is_suffix_any_sizes (ps : List (Nat × Bool × Update)) :
+    ∃ k, k ≤ ps.length ∧ (rRunV ps).db.map (·.2) = (rRunV ps).acc.drop k ∧
+         (rRunV ps).db.map (·.1) = List.range' (k + 1) (ps.length - k) ∧ (rRunV ps).acc.length = ps.length :=
+  Mercure.rRunV_suffix ps
+
+/-! ### at the level of the bytes in the bucket (Model/BoltStore) -/
+
+/-- `persist` + `cleanup` on the bucket's bytes (big-endian keys compared as bytes, the delete loop
+    reading `Uint64(k[:8])`) is `rPublish` on the abstract history: after any publication history the
+    bucket holds exactly the keys and values of `(rRun size ps).db`, about which the theorems above speak. -/
+theorem byte_level_retention_is_rRun (debug : Bool) (size : Nat) (ps : List (Bool × Update)) (hlen : ps.length < 2 ^ 64) :
+    BoltStore.WellFormed debug (ps.foldl (BoltStore.persist size debug) {}).bucket (rRun size ps).db ∧
+    (ps.foldl (BoltStore.persist size debug) {}).seq = (rRun size ps).seq :=
+  BoltStore.run_refines debug size ps hlen
+
+/-- so the stored keys are a contiguous run of sequence numbers ending at the last one -/
+theorem byte_level_keys_contiguous (debug : Bool) (size : Nat) (ps : List (Bool × Update)) (hlen : ps.length < 2 ^ 64) :
+    ∃ k, (ps.foldl (BoltStore.persist size debug) {}).bucket.map (fun e => BoltStore.be64Val e.1)
+      = List.range' (k + 1) (ps.length - k) := by
+  obtain ⟨k, _, hk⟩ := retained_is_suffix size ps
+  obtain ⟨h1, _, h3⟩ := (BoltStore.wf_iff _ _ _).1 (BoltStore.run_refines debug size ps hlen).1
+  refine ⟨k, ?_⟩
+  have hacc := (accepted_is_published size ps).1
+  rw [hacc, List.length_map] at hk
+  rw [← hk, h1, List.map_map]
+  apply List.map_congr_left
+  intro e he
+  have hb := BoltStore.be64Val_enc debug e (h3 e he)
+  simpa [Function.comp] using hb
+
 end Mercure.C10
 
 #print axioms Mercure.C10.retained_is_suffix
@@ -123,3 +158,6 @@ end Mercure.C10
 #print axioms Mercure.C10.retain64
 #print axioms Mercure.C10.signed_rewrite_deletes_everything
 #print axioms Mercure.C10.repo_cleanup_guard
+#print axioms Mercure.C10.byte_level_retention_is_rRun
+#print axioms Mercure.C10.byte_level_keys_contiguous
+#print axioms Mercure.C10.retained_is_suffix_any_sizes
